@@ -482,7 +482,7 @@ def _boot_int(aggname, keys):
                 if h.udesc["prop"] == "C07":
                     # the literal right-hand clause of the statement (no 'unless stop-listed'): a recorded known finding
                     h.ensures(f"C07.called_right_upper_not_positive_literal[{nm}]", z3.Implies(z3.And(rows, Rr), up <= 0), replay=lambda ev: {"target": "verif_replays:called_and_stopped", "args": [], "check": "result['upper'] <= 0"})
-                h.ensures(f"C07.stopped_uncalled_interval_contains_zero[{nm}]", z3.Implies(z3.And(rows, S, z3.Not(L), z3.Not(Rr)), z3.And(lo <= 0, 0 <= up)))
+                h.ensures(f"C07.stopped_uncalled_interval_contains_zero[{nm}]", z3.Implies(z3.And(rows, S, z3.Not(L), z3.Not(Rr)), z3.And(lo <= 0, 0 <= up)), replay=lambda ev: {"target": "verif_replays:stopped_thin_race_replay", "args": ["left" if (ev(lo) or 0) > 0 else "right"], "check": "result['exc'] is None and result['ok']"})
             h.ensures("C08.summary_state_written_at_top_level", "called_contests" in self.written and "stop_model_call" in self.written)
         else:
             h.ensures("C08.call_state_not_touched_below_top_level", "called_contests" not in self.written and "stop_model_call" not in self.written and "aggregate_pred_margin" not in self.written)
